@@ -268,7 +268,7 @@ def validate(ck, tag, hist, recs, api):
     ck.violation(sig, {"binding": "B(trace validation)", "api": api, "matched_prefix": matched,
                        "rejected_event": json.loads(json.dumps(slim)[:20000]) if len(json.dumps(slim)) < 20000 else
                        {"a": slim.get("a"), "b": slim.get("b"), "i": slim.get("i"), "note": "event too large, see behaviour"},
-                       "behaviour": hist[ev["b"]][:ev["i"] + 1] if ev and len(json.dumps(hist[ev["b"]])) < 200000 else None})
+                       "behaviour": hist[ev["b"]][:ev["i"] + 1] if ev else None})
     return False
 
 
